@@ -37,7 +37,7 @@ m = {
  "engines": [
   {"name": "R", "path": "engines/real/harness", "serves_properties": [p['id'] for p in props], "kind_free_text": "property-based testing: proptest-generated scenarios executed on the real crate with OS threads (guard off), judged by oracles over a totally ordered event log"},
   {"name": "S", "path": "engines/sched/harness", "serves_properties": [p['id'] for p in props], "kind_free_text": "property-based testing over schedules: the same scenarios x seeded Random/PCT schedules on shuttle (schedule-controlled runtime; crossbeam/rusty_pool stand-ins validated by differentials)"},
-  {"name": "F", "path": "fuzz", "serves_properties": ["C01", "C02", "C04", "C05", "C06", "C09", "C10", "C11", "C13", "C14", "C15", "C19"], "kind_free_text": "coverage-guided fuzzing (cargo-fuzz/libFuzzer): bytes decode to a scenario + a byte-driven schedule; thorough tier only, supplementary"},
+  {"name": "F", "path": "fuzz", "serves_properties": [p['id'] for p in props], "kind_free_text": "coverage-guided fuzzing (cargo-fuzz/libFuzzer): bytes decode to a scenario + a byte-driven schedule; thorough tier only, supplementary"},
  ],
  "checks": [],
  "not_applicable": [],
